@@ -29,9 +29,51 @@ class Color(enum.Enum):
   BLUE = 2
 
 
+class Level(enum.IntEnum):
+  LOW = 16
+  HIGH = 32
+
+
+class Perm(enum.IntFlag):
+  R = 4
+  W = 2
+
+
+class Mode(str, enum.Enum):
+  TRAIN = 'train'
+  EVAL = 'eval'
+
+
+class Label(str):
+  """A user subclass of str."""
+
+
+class Ratio(float):
+  """A user subclass of float."""
+
+
+class Count(int):
+  """A user subclass of int."""
+
+
 class Pt(typing.NamedTuple):
   x: typing.Any
   y: typing.Any = 0
+
+
+class Span(collections.namedtuple('Span', ['start', 'stop'])):
+  """A class that *subclasses* a named tuple class (the usual idiom for adding methods)."""
+  __slots__ = ()
+
+  def width(self):
+    return self.stop - self.start
+
+
+class LabelledPt(Pt):
+  """Subclass of a typing.NamedTuple class."""
+
+  def label(self):
+    return f'{self.x}/{self.y}'
 
 
 def fa(a, b=2, /, c=3, *args, k=None, **kw):
